@@ -268,7 +268,9 @@ type GenOpts struct {
 
 var nameStems = []string{"f%d.dat", "data%d.bin", "sub/f%d", "sub/deep/er/f%d.x", "with space %d.txt", "UPPER%d.DAT", "d%d/file", "a-%d_b.c.d", "v1..%d.dat", "rel..%d/data.bin", "wait...%d", "win\\f%d.dat", "a\\..\\b%d", "trail%d ", "dot%d.", "n%d", "abcdefg%d"}
 var par1Stems = []string{"f%d.dat", "data%d.bin", "with space %d.txt", "héllo%d.txt", "日本%d", "\U0001F600%d.bin", "UPPER%d.DAT", "clip%d-\U0001F600", "%d\U00010348\U0001F4BE", "x%dé"}
-var baseNames = []string{"set", "my set", "archive.v1", "x", "Set-2_b"}
+// (the last ones contain an archive extension or a volume-like part
+// inside the name)
+var baseNames = []string{"set", "my set", "archive.v1", "x", "Set-2_b", "backup.part1", "x.par2", "a.vol01+02", "old.p01.new"}
 
 // GenWorld draws a file set and puts it on a fresh simulated disk.
 func GenWorld(r *Run, o GenOpts) *World {
@@ -276,9 +278,9 @@ func GenWorld(r *Run, o GenOpts) *World {
 	t.Begin("world")
 	defer t.End()
 	w := &World{Par1: o.Par1, Disk: simdisk.NewMem(), Bystanders: map[string][]byte{}, Exps: map[string][]int{}}
-	dirs := []string{"/w/set", "/w", "/data/long path/x", "/w/a/b/c"}
-	w.Dir = dirs[t.Pick([]int{6, 1, 1, 1}, "dir")]
-	w.Base = baseNames[t.Pick([]int{6, 1, 1, 1, 1}, "base")]
+	dirs := []string{"/w/set", "/w", "/data/long path/x", "/w/a/b/c", "/w/set.parity", "/w/x.par2 files/y.par"}
+	w.Dir = dirs[t.Pick([]int{12, 2, 2, 2, 1, 1}, "dir")]
+	w.Base = baseNames[t.Pick([]int{24, 4, 4, 4, 4, 1, 1, 1, 1}, "base")]
 	w.Disk.MkdirAll(w.Dir)
 	w.Disk.Cwd = w.Dir
 	switch t.Pick([]int{5, 1, 1}, "cwd") {
